@@ -1,5 +1,5 @@
-(* Props/C14.v — placeholder theorems; extended below as the development grows *)
-Require Import Verif.Model.Time Verif.Base.Bytes Verif.Model.Env Verif.Model.SM.
+(* Props/C14.v — what is proved of C14: the arithmetic that must not overflow, and "storage failures are harmless". *)
+Require Import Verif.Model.Time Verif.Base.Bytes Verif.Model.Proto Verif.Model.Env Verif.Model.SM Verif.Proofs.C14Rel.
 Open Scope Z_scope.
 
 (* the saturating increments never leave their type's range and never decrease *)
@@ -8,3 +8,39 @@ Proof. intros z H. unfold sat_inc_u32. destruct (z <? u32_max) eqn:E; [apply Z.l
 Theorem C14_sat_inc_i64 : forall z, i64_min <= z <= i64_max -> i64_min <= sat_inc_i64 z <= i64_max /\ z <= sat_inc_i64 z.
 Proof. intros z H. unfold sat_inc_i64. destruct (z <? i64_max) eqn:E; [apply Z.ltb_lt in E|apply Z.ltb_ge in E]; unfold i64_max, i64_min in *; lia. Qed.
 Print Assumptions C14_sat_inc_u32.
+
+(* ---- storage failures are harmless ----
+   Two runs of the machine on the same script (same entry point, configuration, apps, stored values, clock, policy,
+   server, installer, timers and control requests) that differ only in WHICH storage operations fail - any two sets of
+   failing writes, removes and commits - have the same trace once storage operations and metrics are taken out: the same
+   requests with the same bytes, the same events, policy questions (with the same state shown), installer calls, clock
+   readings, timers, control requests and replies, in the same order.  (Metrics may differ: the attempt counters and the
+   first-seen time they report are read back from storage.) *)
+Theorem C14_storage_failures_change_nothing_but_storage_operations_and_metrics :
+  forall ep cfg url cup apps e failing failing',
+    lowt (run_case ep cfg url cup apps (setf e failing)) = lowt (run_case ep cfg url cup apps (setf e failing')).
+Proof. exact faults_harmless. Qed.
+Print Assumptions C14_storage_failures_change_nothing_but_storage_operations_and_metrics.
+
+(* the property's wording: requests sent and events announced, against the run in which storage works *)
+Definition request_or_event (a : action) : bool := match a with AHttp _ _ | AEvent _ => true | _ => false end.
+Lemma request_or_event_low t : filter request_or_event t = filter request_or_event (lowt t).
+Proof.
+  induction t as [|a r IH]; [reflexivity|]. unfold lowt. cbn [filter].
+  destruct a; cbn [low request_or_event filter]; try (f_equal; exact IH); exact IH.
+Qed.
+Theorem C14_requests_and_events_as_if_storage_worked :
+  forall ep cfg url cup apps e failing,
+    filter request_or_event (run_case ep cfg url cup apps (setf e failing))
+    = filter request_or_event (run_case ep cfg url cup apps (setf e [])).
+Proof.
+  intros. rewrite request_or_event_low, (request_or_event_low (run_case _ _ _ _ _ (setf e []))).
+  f_equal. apply faults_harmless.
+Qed.
+Print Assumptions C14_requests_and_events_as_if_storage_worked.
+(* the statement is about something: storage operations and metrics are the only actions left out, and a failing
+   operation does show in the full trace *)
+Example C14_low_keeps_everything_else :
+  low (AClock {| wall := 0; mono := 0 |}) = true /\ low (ATimer (WFor 1)) = true /\ low (ARequest 0%N OnDemand) = true
+  /\ low (AStore SCommit false) = false /\ low (AMetric (MFailureReason 1%N)) = false.
+Proof. repeat split. Qed.
